@@ -8,9 +8,9 @@ import os
 import sys
 
 sys.path.insert(0, os.path.dirname(os.path.dirname(os.path.abspath(__file__))))
-from btlint.source import Program, ctor_field_map  # noqa: E402
+from btlint.source import Program, ctor_field_map, private_field_table, private_method_table  # noqa: E402
 
-prog = Program()
+prog = Program(normalise=False)
 out = {}
 for c in sorted(prog.classes):
     m = ctor_field_map(prog, c)
@@ -20,3 +20,10 @@ path = os.path.join(os.path.dirname(os.path.dirname(os.path.abspath(__file__))),
 with open(path, "w") as f:
     json.dump(out, f, indent=1, sort_keys=True)
 print("%d classes" % len(out))
+
+tab = private_method_table(prog.trees)
+tab["__fields__"] = private_field_table(prog.trees)
+path = os.path.join(os.path.dirname(path), "private_methods.json")
+with open(path, "w") as f:
+    json.dump(tab, f, indent=1, sort_keys=True)
+print("%d scopes with private methods" % len(tab))
